@@ -313,6 +313,7 @@ Print Assumptions C03_code_shape_today.
 Theorem C03_spec_ok_of_model : forall lower is_space names_of c,
   Inv names_of (l_cap c) (l_state c) ->
   (forall h x, alookup h (cache (l_state c)) = Some x -> at_complete (attr_get (l_attrs c) h) = true) ->
+  (forall h x, alookup h (cache (l_state c)) = Some x -> at_names (attr_get (l_attrs c) h) = c_names x) ->
   (forall k x, alookup k (x_storage (l_envx c)) = Some x ->
      alookup (c_hash (sd_cert x)) (l_stored_complete c) = Some true) ->
   spec_lookup_o lower is_space c (obs_of c (fst (run_lookup lower is_space c))) = true.
